@@ -4,9 +4,10 @@ Proof part (coq/C08): an isometry-status machine (per site: what is GUARANTEED
 left-/right-isometric, plus the tensor's `left_inds` flag) and the record
 info["cur_orthog"]; every library operation that accepts the record is a program
 over primitive effects with the record update written as in
-quimb/tensor/tn1d/core.py.  Theorem: over ALL histories of the operation
-alphabet minus five refuted cases the record stays sound; each refuted case has
-a vm_compute witness.
+quimb/tensor/tn1d/core.py (current, fixed code).  Theorem: over ALL histories of
+the WHOLE operation alphabet the record stays sound.  The pre-fix programs that
+left a false record (F9, F17 and three more) are kept in coq/C08/Historic.v,
+labelled historic, with their vm_compute witnesses.
 
 Tie (H, exact): random histories on random MPS threading ONE info dict through
 the real implementation; after every operation the record and every tensor's
@@ -301,7 +302,8 @@ def gen_opts(rng):
 
 def gen_op(rng, L, p_bad):
     """one random operation on an MPS of L sites.  p_bad = probability of drawing
-    one of the operations known (from the model) to break the record."""
+    one of the operations that broke the record before the fix commits (they are
+    ordinary operations now; the name is kept for the replay files)."""
     seed = rng.randrange(1 << 30)
     bad = rng.random() < p_bad
     if bad:
@@ -345,7 +347,7 @@ def gen_op(rng, L, p_bad):
         return {"kind": "compress_site", "i": rng.randrange(L), "canonize": True, "opts": gen_opts(rng), "seed": seed}
     if kind == "swap":
         i, j = rng.sample(range(L), 2)
-        return {"kind": "swap", "i": i, "j": j, "absorb": rng.choice(["left", "right"]), "opts": gen_opts(rng), "seed": seed}
+        return {"kind": "swap", "i": i, "j": j, "absorb": rng.choice(["left", "right", "left", "right", None, "both"]), "opts": gen_opts(rng), "seed": seed}
     if kind == "swap_to":
         i, f = rng.randrange(L), rng.randrange(L)
         return {"kind": "swap_to", "i": i, "f": f, "absorb": rng.choice([None, None, "left", "right"]), "opts": gen_opts(rng), "seed": seed}
@@ -368,7 +370,7 @@ def gen_op(rng, L, p_bad):
                 "contract": rng.choice([True, "auto-mps", "swap+split", "nonlocal"]), "seed": seed}
     if kind == "measure":
         remove = L >= 3 and rng.random() < 0.4
-        site = rng.randrange(L - 1) if remove else rng.randrange(L)
+        site = rng.randrange(L)
         return {"kind": "measure", "site": site, "remove": remove, "renorm": rng.random() < 0.7, "inplace": rng.random() < 0.5, "seed": seed}
     n = rng.randint(1, 3)
     terms = []
@@ -416,20 +418,9 @@ def op_to_coq(op):
 
 
 def is_bad(op, L):
-    """does the operation belong to one of the refuted classes (model: not good_b)"""
-    k = op["kind"]
-    if k == "swap":
-        return op["absorb"] == "both" or (op["absorb"] is None and abs(op["i"] - op["j"]) == 1)
-    if k == "swap_to":
-        return op["absorb"] == "both"
-    if k == "gate1":
-        return not op["unitary"]
-    if k == "compress_site":
-        return not op["canonize"]
-    if k == "dropped":
-        return True
-    if k == "measure":
-        return op["remove"] and op["site"] == L - 1
+    """does the operation fall outside the record theorem's domain (model: not good_b)?
+    Since the fix commits 4980426d / f9934bdc / eb8c2f1e / e1e3f983 / 47017e6a no
+    operation the generator draws does: the theorem covers the whole alphabet."""
     return False
 
 
@@ -466,9 +457,10 @@ Definition st_ok (st : mps) (e : rcd * list (flag * bool * bool)) : bool :=
   rcd_eqb (rec st) (fst e) && obs_ok (sites st) (snd e).
 (* replay one history: after every operation the model's record and flags equal
    the observed ones and everything the model guarantees was measured; a `None`
-   expectation = the implementation raised there.  `bad` = the harness drew the
-   operation from the refuted classes: the domain of the positive theorem
-   (good_b) must be exactly the complement. *)
+   expectation = the implementation raised there.  `bad` = the harness classifies
+   the operation as outside the record theorem's domain (never, since the fix
+   commits): the domain of the positive theorem (good_b) must be exactly the
+   complement, i.e. every generated operation must lie in it. *)
 Fixpoint check (st : mps) (h : list (op * (nat * nat) * bool * option (rcd * list (flag * bool * bool)))) : bool :=
   match h with
   | [] => true
@@ -923,7 +915,7 @@ def histories_stream(ctx):
         nops = ctx.rng.randint(5, 25) if ctx.quick else ctx.rng.randint(10, 50)
         ctx.bump("prep:" + spec["prep"])
         ctx.bump("record0:" + (spec["record"] if isinstance(spec["record"], str) else "tuple"))
-        D = run_history(ctx, spec, nops=nops, p_bad=0.03, hid=h)
+        D = run_history(ctx, spec, nops=nops, p_bad=0.12, hid=h)
         if D.steps:
             cases.append((h, D.coq_case()))
             drivers[h] = D
@@ -962,8 +954,10 @@ def first_divergence(ctx, D):
 
 
 def findings_stream(ctx):
-    """the five refuted theorems, replayed on the implementation (each must be a
-    known finding until fixed; after a fix the model must be updated)"""
+    """the operations that left a false record before the fix commits (F9, F17,
+    compress_site(canonize=False), dropped copies, measure at the last site),
+    replayed on the implementation: regression scripts, each must now keep the
+    record sound and agree with the model"""
     base = {"L": 6, "bonds": [3, 4, 4, 3, 2], "phys": [2] * 6, "complex": False, "prep": "canon", "seed": 11, "center": [3, 3], "record": [3, 3]}
     scripts = [
         [{"kind": "swap", "i": 2, "j": 3, "absorb": None, "opts": {"cutoff": 0.0}, "seed": 1}],
@@ -1140,7 +1134,7 @@ def setup(ctx):
         "numerics (QR, SVD, contraction) enter only through the primitive effects listed in the trusted base",
         "cyclic MPS, bra= arguments and non-'direct' sub-MPO compression methods are not modelled (the latter are covered by the oracle stream)",
     ]
-    ctx.check_props(["Base/Sums.vo", "C08/Model.vo", "C08/Proofs.vo", "C08/Region.vo", "C08/Props.v"])
+    ctx.check_props(["Base/Sums.vo", "C08/Model.vo", "C08/Proofs.vo", "C08/Region.vo", "C08/Historic.vo", "C08/Props.v"])
 
 
 def run(ctx):
